@@ -94,6 +94,10 @@ struct Cfg {
     /// do not trigger the stop signal at the end (the runtime has to stop on its own)
     #[serde(default)]
     no_final_stop: bool,
+    /// seed of the runtime's random number generator: the downlink read task's `select!` between
+    /// new consumers and incoming messages is unbiased
+    #[serde(default)]
+    seed: u64,
 }
 
 type LaneState = BTreeMap<i32, i32>; // value lane: key 0 -> value; absent = Extant/None
@@ -503,6 +507,10 @@ impl World for DlWorld {
         while self.times.len() <= self.step as usize {
             self.times.push(now_ms);
         }
+    }
+
+    fn rng_seed(cfg: &Cfg) -> u64 {
+        cfg.seed
     }
 
     fn finish(self) -> Outcome {
@@ -1303,7 +1311,9 @@ pub fn run_main() {
                         if mode == Mode::SlowAfterLink && remote_buf != 16 {
                             continue;
                         }
-                        cfgs.push(Cfg { kind, script: script.clone(), consumers: *consumers, remote_buf, dl_buf, sock_credit: if remote_buf == 16 { 5 } else { 0 }, budget, mode, ticks: 0, no_final_stop: false });
+                        for seed in if remote_buf == 16 && dl_buf == 16 && !quick { vec![0u64, 1, 2] } else if remote_buf == 16 && dl_buf == 16 && budget == 64 { vec![0u64, 1] } else { vec![0u64] } {
+                            cfgs.push(Cfg { kind, script: script.clone(), consumers: *consumers, remote_buf, dl_buf, sock_credit: if remote_buf == 16 { 5 } else { 0 }, budget, mode, ticks: 0, no_final_stop: false, seed });
+                        }
                     }
                 }
             }
@@ -1318,7 +1328,7 @@ pub fn run_main() {
                         if quick && mode == Mode::SlowRead {
                             continue;
                         }
-                        cfgs.push(Cfg { kind, script: script.clone(), consumers: 1, remote_buf: 16, dl_buf: 4096, sock_credit: 5, budget: 64, mode, ticks: 0, no_final_stop: false });
+                        cfgs.push(Cfg { kind, script: script.clone(), consumers: 1, remote_buf: 16, dl_buf: 4096, sock_credit: 5, budget: 64, mode, ticks: 0, no_final_stop: false, seed: 0 });
                     }
                 }
             }
@@ -1328,7 +1338,7 @@ pub fn run_main() {
             .iter()
             .filter(|(s, _)| s.len() <= 5)
             .flat_map(|(script, consumers)| {
-                [2usize, 64].into_iter().map(move |budget| Cfg { kind, script: script.clone(), consumers: *consumers, remote_buf: 16, dl_buf: 16, sock_credit: 5, budget, mode: Mode::Eager, ticks: 0, no_final_stop: false })
+                [2usize, 64].into_iter().map(move |budget| Cfg { kind, script: script.clone(), consumers: *consumers, remote_buf: 16, dl_buf: 16, sock_credit: 5, budget, mode: Mode::Eager, ticks: 0, no_final_stop: false, seed: 0 })
             })
             .collect();
         let name = format!("dl-{}-core-d2", if kind == Kind::Value { "value" } else { "map" });
@@ -1336,7 +1346,7 @@ pub fn run_main() {
     }
     asys::mapq::run_runtime(&ctx);
     ctx.assume("the socket is a reactive model of a well-behaved lane: it answers each @link/@sync it reads and applies each @command, at a schedule-chosen pace");
-    ctx.assume("tokio select! start index is fixed per run (seeded), not enumerated; schedule switches only where the runtime future returns Pending (plus coop-budget yields)");
+    ctx.assume("the start branch of unbiased tokio select!s is fixed by the runtime RNG seed within one execution; two seeds (three in the thorough tier) are configurations of the tight-buffer grid; schedule switches only where the runtime future returns Pending (plus coop-budget yields)");
     ctx.assume("commands written by the consumers are pairwise distinct so that a received frame identifies its writer");
     ctx.finish(
         "model_checking",
@@ -1445,7 +1455,7 @@ pub fn run_timeouts_leg(ctx: &Ctx) {
         for (remote_buf, dl_buf) in [(4096usize, 4096usize), (16, 16)] {
             for budget in [2usize, 64] {
                 for mode in [Mode::Eager, Mode::Burst, Mode::SlowAfterLink] {
-                    cfgs.push(Cfg { kind: *kind, script: script.clone(), consumers: *consumers, remote_buf, dl_buf, sock_credit: if remote_buf == 16 { 5 } else { 0 }, budget, mode, ticks: 2, no_final_stop: true });
+                    cfgs.push(Cfg { kind: *kind, script: script.clone(), consumers: *consumers, remote_buf, dl_buf, sock_credit: if remote_buf == 16 { 5 } else { 0 }, budget, mode, ticks: 2, no_final_stop: true, seed: 0 });
                 }
             }
         }
